@@ -603,7 +603,7 @@ fn run_c12(tier: &str, seed: u64, threads: usize, known: &KnownFile) -> RealRepo
             },
         }
     }
-    let _ = std::fs::create_dir_all("/verif/replays");
+    let _ = std::fs::create_dir_all(format!("{}/replays", crate::out_dir()));
     for (class, (i, detail)) in fresh.iter().take(5) {
         println!("vsim: C12/state-differs-real/{} - history {}: {}", class, hs[*i].id, detail);
         let keep = |c: &History| -> bool {
@@ -621,7 +621,7 @@ fn run_c12(tier: &str, seed: u64, threads: usize, known: &KnownFile) -> RealRepo
             hsh ^= c as u64;
             hsh = hsh.wrapping_mul(0x100000001b3);
         }
-        let path = format!("/verif/replays/C12-state-differs-real-{:08x}.json", hsh as u32);
+        let path = format!("{}/replays/C12-state-differs-real-{:08x}.json", crate::out_dir(), hsh as u32);
         if std::fs::write(&path, text).is_ok() {
             rep.violation_replays.push(path);
         }
